@@ -129,7 +129,7 @@ def gen_case(ctx, fmt=None):
         if rng.random() < 0.4:
             # the other Hadrons readers: external legs, bilinears, t0 from the flow observables
             nfl = rng.randint(4, 14)
-            c_.update({'what': rng.choice(['leg', 'bilinear', 't0', 't0']), 'nflow': nfl, 'zc': rng.choice([0, 1, nfl - 2, rng.randrange(nfl)]), 'fit_range': rng.choice([1, 2, 3, 5])})
+            c_.update({'what': rng.choice(['leg', 'bilinear', 'fourquark', 't0', 't0']), 'nflow': nfl, 'zc': rng.choice([0, 1, nfl - 2, rng.randrange(nfl)]), 'fit_range': rng.choice([1, 2, 3, 5])})
         return c_
     fmt = fmt or rng.choice(['rwms14', 'rwms16', 'rwms20', 'qtop_openqcd', 'energy', 'qtop_sfqcd', 'ms5_xsf', 'sfcf_c', 'sfcf_o', 'sfcf_a'])
     case = {'fmt': fmt, 'reps': {str(k): v for k, v in gen_reps(rng).items()}, 'shuffle': rng.getrandbits(20)}
@@ -296,6 +296,21 @@ def read_and_expect(ctx, case, root, info):
                             v *= float(np.mean(np.exp(-np.asarray(lnr))))
                         exp[names[r]][cls[r][i]] = v
                 out.append(('rwms factor %d' % k, tab(res[k]), exp))
+            if fmt == 'rwms16' and 'names' not in kw:
+                # the same record layout read as <psibar psi>: per factor the product over the Hasenbusch factors of the plain source
+                # averages, configurations numbered 1, 2, ... in file order (the format of this reader carries no selection by number)
+                import pyerrors.input.misc as pmisc
+                pb = pmisc.read_pbp(root, 'ensA')
+                for k in range(len(case['nsrc'])):
+                    exp = {}
+                    for r in rs:
+                        exp[names[r]] = {}
+                        for i, c in enumerate(reps[r]):
+                            v = 1.0
+                            for lnr in info['stored'][r][c][k]:
+                                v *= float(np.mean(np.asarray(lnr)))
+                            exp[names[r]][i + 1] = v
+                    out.append(('read_pbp factor %d' % k, tab(pb[k]), exp))
         elif fmt == 'qtop_openqcd':
             cls = {r: renumbered(reps[r]) for r in rs}
             rstart, rstop, _ = selection(case, rs, cls)
@@ -569,6 +584,21 @@ def npr_value(cfg, e, si, sj, ci, cj):
 
 
 BILINEAR_NAMES = ['Gamma%d' % i for i in range(16)]
+# four-quark vertices: name -> the (gammaA, gammaB) pairs whose entries are summed (all with sign +; the tensor-tilde structure,
+# whose signs are a convention of the library, is stored but not requested)
+_LI = ['X', 'Y', 'Z', 'T']
+FQ_VERTICES = {
+    'VV': [('Gamma' + i, 'Gamma' + i) for i in _LI], 'VA': [('Gamma' + i, 'Gamma' + i + 'Gamma5') for i in _LI],
+    'AV': [('Gamma' + i + 'Gamma5', 'Gamma' + i) for i in _LI], 'AA': [('Gamma' + i + 'Gamma5', 'Gamma' + i + 'Gamma5') for i in _LI],
+    'SS': [('Identity', 'Identity')], 'SP': [('Identity', 'Gamma5')], 'PS': [('Gamma5', 'Identity')], 'PP': [('Gamma5', 'Gamma5')],
+    'TT': [('Sigma' + _LI[i] + _LI[j], 'Sigma' + _LI[i] + _LI[j]) for i in range(4) for j in range(i + 1, 4)]}
+FQ_PAIRS = [pr for v in FQ_VERTICES.values() for pr in v] + [('SigmaXY', 'SigmaZT'), ('SigmaXZ', 'SigmaYT'), ('SigmaXT', 'SigmaYZ'), ('SigmaYZ', 'SigmaXT'), ('SigmaYT', 'SigmaXZ'), ('SigmaZT', 'SigmaXY')]
+FQ_SHAPE = (2, 2, 1, 1, 2, 2, 1, 1)
+
+
+def fq_value(cfg, e, ix):
+    w = sum((k + 1) * 0.0137 * v for k, v in enumerate(ix))
+    return complex(0.2137 + 0.0113 * cfg + 0.0171 * e + w, 0.1137 + 0.0071 * cfg * (ix[0] + 1) + 0.0037 * e + 0.5 * w)
 
 
 def check_hadrons_npr(ctx, case):
@@ -591,6 +621,8 @@ def check_hadrons_npr(ctx, case):
     try:
         order = list(range(16))
         _random.Random(case['seed']).shuffle(order)
+        fq_order = list(range(32))
+        _random.Random(case['seed'] + 5).shuffle(fq_order)
         for c in cfgs:
             with h5py.File(os.path.join(root, 'data.%d.h5' % c), 'w') as f:
                 g = f.create_group('ExternalLeg')
@@ -613,6 +645,20 @@ def check_hadrons_npr(ctx, case):
                     inf.attrs['gamma'] = np.array([BILINEAR_NAMES[e].encode()])
                     inf.attrs['pIn'] = np.array([b'1 2 0 3'])
                     inf.attrs['pOut'] = np.array([b'0 1 1 2'])
+                if case['what'] == 'fourquark':
+                    fq = f.create_group('FourQuarkFullyConnected')
+                    for slot, e in enumerate(fq_order):
+                        sub = fq.create_group('FourQuarkFullyConnected_%d' % slot)
+                        arr = np.zeros((1, 1) + FQ_SHAPE, dtype=ct)
+                        for ix in np.ndindex(*FQ_SHAPE):
+                            v = fq_value(c, e, ix)
+                            arr[(0, 0) + ix] = (v.real, v.imag)
+                        sub.create_dataset('corr', data=arr)
+                        inf = sub.create_group('info')
+                        inf.attrs['gammaA'] = np.array([FQ_PAIRS[e][0].encode()])
+                        inf.attrs['gammaB'] = np.array([FQ_PAIRS[e][1].encode()])
+                        inf.attrs['pIn'] = np.array([b'1 2 0 3'])
+                        inf.attrs['pOut'] = np.array([b'0 1 1 2'])
                 fl = f.create_group('FlowObservables')
                 t_ = fl.create_group('FlowObservables_0')
                 t_.attrs['description'] = np.array([b'Flow time'])
@@ -640,6 +686,9 @@ def check_hadrons_npr(ctx, case):
                     res = {'leg': had.read_ExternalLeg_hd5(root, 'data', 'ensH', **kw)}
                 elif what == 'bilinear':
                     res = had.read_Bilinear_hd5(root, 'data', 'ensH', **kw)
+                elif what == 'fourquark':
+                    verts = _random.Random(case['seed'] + 7).sample(sorted(FQ_VERTICES), 3)
+                    res = had.read_Fourquark_hd5(root, 'data', 'ensH', vertices=verts, **kw)
                 else:
                     obsname = ['Plaquette energy density', 'Clover energy density'][case['entry'] % 2]
                     t0 = had.extract_t0_hd5(root, 'data', 'ensH', obs=obsname, fit_range=case['fit_range'], **kw)
@@ -656,6 +705,22 @@ def check_hadrons_npr(ctx, case):
                 if abs(float(t0.value) - float(ref.value)) > 1e-6 * abs(float(ref.value)) or np.max(np.abs(np.asarray(t0.deltas['ensH']) - np.asarray(ref.deltas['ensH']))) > 1e-5 * np.max(np.abs(ref.deltas['ensH'])):
                     return [('violation', 'stored-numbers:hadrons-npr', 'extract_t0_hd5 %s: %r vs straight line through flow times %d..%d %r' % (obsname, float(t0.value), lo, hi - 1, float(ref.value)))]
                 return probs
+        if what == 'fourquark':
+            # every vertex is the sum of the stored entries with its (gammaA, gammaB) pairs
+            if sorted(res) != sorted(verts):
+                return [('violation', 'stored-numbers:hadrons-npr', 'vertices %r, requested %r' % (sorted(res), sorted(verts)))]
+            rr = _random.Random(case['seed'] + 2)
+            for vname in verts:
+                M = res[vname]
+                for _ in range(8):
+                    ix = tuple(rr.randrange(n_) for n_ in FQ_SHAPE)
+                    z = M[ix]
+                    for comp, sel_ in (('real', lambda v: v.real), ('imag', lambda v: v.imag)):
+                        exp = {'ensH': {c: sel_(sum(fq_value(c, FQ_PAIRS.index(pr), ix) for pr in FQ_VERTICES[vname])) for c in want}}
+                        d = cmp_tab(tab(getattr(z, comp)), exp, 'hadrons fourquark %s %r %s' % (vname, ix, comp))
+                        if d:
+                            return [('violation', 'stored-numbers:hadrons-npr', d[:2])]
+            return probs
         keys = ['leg'] if what == 'leg' else list(BILINEAR_NAMES)
         if sorted(res) != sorted(keys):
             return [('violation', 'stored-numbers:hadrons-npr', 'entries %r' % sorted(res)[:5])]
